@@ -765,6 +765,20 @@ class CMAESBig(CMAFamily):
         return cma.Strategy(centroid=[((3 * i) % 7) - 3.0 for i in range(30)], sigma=0.8, lambda_=self.LAMBDA)
 
 
+class CMAESHuge(CMAFamily):
+    """Dimension 200: with the default parameters c1 + cmu is below 1/(10 N), the regime in which a lazily refreshed
+    eigendecomposition (Hansen's `eigen_gap`) actually skips generations; a checkpoint that drops and re-derives
+    B / diagD / BD then differs from the live strategy at every crash point that is not a multiple of the gap
+    (seeded change C17-r7m2; invisible at N = 30).  Used for determinism, same-process restore and kill-and-restore only."""
+    name = "cma_es_huge"
+    LAMBDA = 6
+    NGEN = 4
+    SMALL = {"LAMBDA": 4}
+
+    def make_strategy(self, mapper):
+        return cma.Strategy(centroid=[((3 * i) % 7) - 3.0 for i in range(200)], sigma=0.8, lambda_=self.LAMBDA)
+
+
 class CMA1pL(CMAFamily):
     name = "cma_1pl"
     LAMBDA = 6
@@ -976,9 +990,10 @@ def shared_inputs_fp():
 
 
 FAMILIES = dict((f.name, f) for f in (GAList, NSGA2, SPEA2, NSGA3Mem, GPEph, CMAES, CMA1pL, MOCMA,
-                                       CMAESShared, CMA1pLShared, MOCMAShared, ESNumpy32, CMAESBig,
+                                       CMAESShared, CMA1pLShared, MOCMAShared, ESNumpy32, CMAESBig, CMAESHuge,
                                        MOCMALt, MOCMAGt, GAStream, GPTyped, GPTypedUser, GPPartial, GADemes))
 PENDING = []
+HEAVY = ["cma_es_huge"]      # determinism, same-process restore and crash points only (no pools / permutations)
 EXTRA = ["es_np32", "cma_es_big", "mo_cma_lt", "mo_cma_gt", "ga_stream", "gp_typed", "gp_typed_user", "gp_partial", "ga_demes"]
 
 
